@@ -1436,7 +1436,7 @@ pub fn replay(j: &J) -> Result<J, String> {
     let repl = j.get("repl").and_then(|x| x.as_bool()).ok_or("repl")?;
     let bom = bom_parse(j.get("bom").and_then(|x| x.as_str()).ok_or("bom")?);
     let calls: Vec<Call> = j.get("calls").and_then(|x| x.as_arr()).ok_or("calls")?.iter().map(Call::from_json).collect();
-    let render = |run: &DecRun| -> J {
+    let render = |run: &DecRun, calls: &[Call]| -> J {
         let mut a = vec![];
         for (i, o) in run.obs.iter().enumerate() {
             let sink = calls.get(i).map(|c| c.sink(sink)).unwrap_or(sink);
@@ -1452,6 +1452,31 @@ pub fn replay(j: &J) -> Result<J, String> {
         }
         r
     };
+    // sweep cases record the caller's chunks only ("loop": true): expand them into the calls of the
+    // documented loop (same capacity, unconsumed input re-pushed until InputEmpty)
+    let mut calls = calls;
+    if j.get("loop").and_then(|x| x.as_bool()) == Some(true) {
+        let chunks = std::mem::take(&mut calls);
+        for ch in chunks {
+            let mut cur = ch.clone();
+            for _ in 0..4 * ch.src.len() + 64 {
+                calls.push(cur.clone());
+                let r = run_decoder_calls(&enc, bom, sink, repl, &calls)?;
+                if r.panic.is_some() {
+                    break;
+                }
+                let o = match r.obs.last() {
+                    Some(o) => o,
+                    None => break,
+                };
+                if o.res == Res::InputEmpty || o.read > cur.src.len() {
+                    break;
+                }
+                cur.src = cur.src[o.read..].to_vec();
+            }
+        }
+    }
+    let render = |run: &DecRun| render(run, &calls);
     let a = run_decoder_calls(&enc, bom, sink, repl, &calls)?;
     let b = run_decoder_calls(&enc, bom, sink, repl, &calls)?;
     let (ja, jb) = (render(&a), render(&b));
